@@ -200,6 +200,9 @@ def lens_events(optic, meta, rnd, quick, label):
     nn = rnd.randint(3, 5)
     rv = G.quiet(RmsWavefrontErrorVsField, optic, m, [w], nn, dk)
     xs, ys = np.array(rv.distribution.x, dtype=float), np.array(rv.distribution.y, dtype=float)
+    # the curve must be evaluated on the documented samples of (distribution, num_rays)
+    ev.append(dict({"kind": "count", "dist": dk, "n": int(nn), "npts": int(len(np.array(rv.data[0][0][0])))},
+                   _tag=dict(base, view="RmsWavefrontErrorVsField.samples", dist=dk, num_rays=nn)))
     for k in sorted(set([0, m - 1, rnd.randrange(m)])):
         opds = np.array(rv.data[k][0][0], dtype=float)
         ev.append(dict(W.rms_event(opds, rv._wavefront_error[k, 0]),
@@ -444,7 +447,7 @@ def main(ctx):
             what = ("%s, field %s, w %s, pupil (%.4g, %.4g), %s/%s: clause %s fails (reported OPD %r waves; "
                     "n_image %.6g, n_object %.6g)" % (tg["lens"], tg.get("field"), tg.get("w"), tg.get("px", 0), tg.get("py", 0),
                                                        tg["view"], tg["dist"], clause,
-                                                       fl(e["opd"]) if e["kind"] == "ray" else fl(e["val"]),
+                                                       fl(e["opd"]) if e["kind"] == "ray" else (fl(e["val"]) if "val" in e else e.get("npts")),
                                                        tg.get("nimg", 1), tg.get("nobj", 1)))
             keys = ("C", "dc", "oc", "tc", "pc0", "P", "d", "o", "t", "p0", "d0", "zi", "xpl", "nimg", "nobj", "lam", "opd")
             ctx.report(clause, cls, what,
@@ -456,7 +459,7 @@ def main(ctx):
         tg = tags[e["id"]]
         ctx.sample({"lens": tg["lens"], "view": tg["view"], "dist": tg["dist"], "field": tg.get("field"),
                     "w": tg.get("w"), "pupil": [tg.get("px"), tg.get("py")],
-                    "reported": fl(e["opd"]) if e["kind"] == "ray" else fl(e["val"]), "verdict": "accepted"})
+                    "reported": fl(e["opd"]) if e["kind"] == "ray" else (fl(e["val"]) if "val" in e else e.get("npts")), "verdict": "accepted"})
     # ---- 3. calibration --------------------------------------------------------
     rnd = random.Random(ctx.seed + 99)
     rays = [e for e in good if e["kind"] == "ray"]
